@@ -1,6 +1,7 @@
 #!/bin/bash
 # usage: tools/seeded_run.sh <patch.diff> <Cxx> [tier]
 # Runs check Cxx against a scratch worktree of /repo with the patch applied, from a scratch copy of /verif, so that
+# (VERIF_SRC=<dir> uses another copy of /verif as the source of the machinery)
 # neither /repo nor /verif (gen files, evidence, .vo) is disturbed while other work is going on.  Prints the check's
 # output and "SEEDED-RESULT rc=<rc>".  Removes both scratch directories afterwards.
 set -u
@@ -9,7 +10,7 @@ tag="seedrun-$$"
 wt="/tmp/$tag-wt"; vc="/tmp/$tag-verif"
 git -C /repo worktree add --detach "$wt" HEAD >/dev/null 2>&1 || { echo "worktree failed"; exit 2; }
 if ! git -C "$wt" apply "$patch"; then echo "patch does not apply"; git -C /repo worktree remove --force "$wt"; exit 2; fi
-rsync -a --exclude .git --exclude 'replays/' --exclude 'work/' /verif/ "$vc/"
+rsync -a --exclude .git --exclude 'replays/' --exclude 'work/' "${VERIF_SRC:-/verif}/" "$vc/"
 rm -f "$vc/coq/.lock"
 cd "$vc" && VERIF_REPO="$wt" PYTHONPATH="$wt/sdk:$wt/compliance_tool:$vc/tools" PYTHONHASHSEED=0 PIP_NO_INDEX=1 \
     BASYX_PYTHON_SDK_VERIF=1 VERIF_TIER="$tier" /venv/bin/python "$vc/tools/run_check.py" "$pid" --tier "$tier" > "$vc/out.txt" 2>&1
